@@ -182,6 +182,23 @@ func (p *Pool) Release(ip net.IP) {
 	}
 }
 
+// ReleaseClient returns whatever address is allocated to mac to the pool
+// (an OFFER that is never going to become a lease). It reports the address, or
+// nil if mac holds none.
+func (p *Pool) ReleaseClient(mac net.HardwareAddr) net.IP {
+	p.mu.Lock()
+	defer p.mu.Unlock()
+
+	macStr := mac.String()
+	ip, exists := p.allocated[macStr]
+	if !exists {
+		return nil
+	}
+	delete(p.allocated, macStr)
+	p.available = append(p.available, ip)
+	return ip
+}
+
 // Claim records ip as allocated to mac for a REQUEST that was not preceded by
 // an allocation in this pool (INIT-REBOOT, or a lease the server no longer
 // remembers). It succeeds if mac already holds ip or if ip is currently
